@@ -255,7 +255,7 @@ func traceStageRun(cfg TraceSpecCfg, st *TraceStats, only int, timeout time.Dura
 		for _, d := range ds {
 			st.Divs[d.Kind]++
 			okContainer[ci] = false
-			if len(st.Examples) < maxExamples {
+			if st.Divs[d.Kind] <= maxExamples {
 				st.Examples = append(st.Examples, traceExample{Div: d, Rec: recs[ci], UpTo: opIdx})
 			}
 			if d.Fatal {
